@@ -133,6 +133,7 @@ Inductive err :=
 | Plain (t : msg)                    (* errors.New(t): no class, no status *)
 | Status (k : code) (m : msg)        (* status.Error(k, m), k <> OK *)
 | Wrap (t : msg) (e : err)           (* fmt.Errorf("%s: %w", t, e) *)
+| Glue (t : msg) (e : err)           (* fmt.Errorf("%s%w", t, e): no separator *)
 | Embed (o : obj) (e : err).         (* EmbedObject(o, e) when it neither panics nor gives up *)
 
 (* err.Error() *)
@@ -142,6 +143,7 @@ Fixpoint message (e : err) : msg :=
   | Plain t => t
   | Status k m => StatusPrefix k :: m      (* Status.String() *)
   | Wrap t e' => t ++ sep :: message e'
+  | Glue t e' => t ++ message e'
   | Embed o e' => Marker :: Json o :: Marker :: sep :: message e'
   end.
 
@@ -154,6 +156,7 @@ Fixpoint is_chain (e : err) (c : class) : bool :=
   | Plain _ => false
   | Status _ _ => false
   | Wrap _ e' => is_chain e' c
+  | Glue _ e' => is_chain e' c
   | Embed _ e' => is_chain e' c
   end.
 
@@ -162,6 +165,7 @@ Fixpoint inner_status (e : err) : option code :=
   match e with
   | Status k _ => Some k
   | Wrap _ e' => inner_status e'
+  | Glue _ e' => inner_status e'
   | Embed _ e' => inner_status e'
   | Sentinel _ => None
   | Plain _ => None
@@ -336,6 +340,7 @@ Definition tables_ok (T : tables) : bool :=
 
 Inductive frame :=
 | FWrap (t : msg)        (* fmt.Errorf("%s: %w", t, _) *)
+| FGlue (t : msg)        (* fmt.Errorf("%s%w", t, _) *)
 | FEmbed (o : obj).      (* EmbedObject(o, _) *)
 
 Definition ctx := list frame.   (* outermost frame first *)
@@ -344,6 +349,7 @@ Fixpoint plug (c : ctx) (e : err) : err :=
   match c with
   | [] => e
   | FWrap t :: r => Wrap t (plug r e)
+  | FGlue t :: r => Glue t (plug r e)
   | FEmbed o :: r => Embed o (plug r e)
   end.
 
@@ -358,20 +364,21 @@ Fixpoint build (c : ctx) (e : err) : option err :=
       | Some e' =>
           match f with
           | FWrap t => Some (Wrap t e')
+          | FGlue t => Some (Glue t e')
           | FEmbed o => embed_object o e'
           end
       end
   end.
 
 Definition frame_markers (f : frame) : nat :=
-  match f with FWrap t => count_markers t | FEmbed _ => 0 end.
+  match f with FWrap t => count_markers t | FGlue t => count_markers t | FEmbed _ => 0 end.
 
 (* no wrap text of the context contains a marker *)
 Definition ctx_marker_free (c : ctx) : bool :=
   forallb (fun f => Nat.eqb (frame_markers f) 0) c.
 
 Definition ctx_embeds (c : ctx) : list obj :=
-  flat_map (fun f => match f with FEmbed o => [o] | FWrap _ => [] end) c.
+  flat_map (fun f => match f with FEmbed o => [o] | FWrap _ => [] | FGlue _ => [] end) c.
 
 (** * Byte level *)
 
@@ -471,6 +478,7 @@ Fixpoint err_wf (e : err) : bool :=
   | Plain t => msg_wf t
   | Status _ m => msg_wf m
   | Wrap t e' => msg_wf t && err_wf e'
+  | Glue t e' => msg_wf (t ++ message e') && err_wf e'   (* no separator: the junction itself must be safe *)
   | Embed o e' => no_esc o && err_wf e'
   end.
 
